@@ -871,6 +871,44 @@ def rule_inheritance_horizon_floor(ctx: Ctx) -> None:
     ctx.floor("C01-10", 8)
 
 
+def _fresh_list_expr(e: ast.AST) -> bool:
+    """Does ``e`` always evaluate to a list object created by this very evaluation?"""
+    if isinstance(e, (ast.List, ast.ListComp)):
+        return True
+    if isinstance(e, ast.Call) and path_of(e.func) in ("list", "sorted"):
+        return True
+    if isinstance(e, ast.BinOp) and isinstance(e.op, ast.Add):
+        return _fresh_list_expr(e.left) or _fresh_list_expr(e.right)
+    if isinstance(e, ast.IfExp):
+        return _fresh_list_expr(e.body) and _fresh_list_expr(e.orelse)
+    return False
+
+
+def rule_engine_grows_only_its_own_lists(ctx: Ctx) -> None:
+    """C01-11: the engine appends continuations / completion events only to lists it built itself.  A list that came from model code (a
+    yielded side-effect list, a handler's return value, a parameter) may be the model's own object and be handed over again: growing it in
+    place would re-deliver the events appended earlier."""
+    prog = ctx.prog
+    n = 0
+    for fn in prog.all_functions("happysimulator/core/"):
+        params = set(fn.params())
+        for c in calls_in(fn.node):
+            if not (isinstance(c.func, ast.Attribute) and c.func.attr in ("append", "extend", "insert") and isinstance(c.func.value, ast.Name)):
+                continue
+            x = c.func.value.id
+            defs = [s_ for s_ in walk_scope(fn.node, include_root=False) if isinstance(s_, (ast.Assign, ast.AnnAssign)) and s_.value is not None
+                    and path_of(s_.targets[0] if isinstance(s_, ast.Assign) else s_.target) == x]
+            augs = [s_ for s_ in walk_scope(fn.node, include_root=False) if isinstance(s_, ast.AugAssign) and path_of(s_.target) == x]
+            other = [t_ for t_ in walk_scope(fn.node, include_root=False) if isinstance(t_, (ast.For, ast.comprehension, ast.withitem, ast.NamedExpr))
+                     and any(isinstance(y, ast.Name) and y.id == x and isinstance(y.ctx, ast.Store) for y in ast.walk(getattr(t_, "target", None) or getattr(t_, "optional_vars", None) or t_))]
+            n += 1
+            ok = x not in params and bool(defs) and all(_fresh_list_expr(d.value) for d in defs) and not other
+            why = "" if ok else (f" — `{x}` is a parameter" if x in params else f" — `{x}` may be `{unparse(next((d.value for d in defs if not _fresh_list_expr(d.value)), None))[:80]}`" if defs else f" — `{x}` is not bound to a fresh list here")
+            ctx.ob("C01-11", "G6", fn, c, ok, f"{fn.qual}: `{x}.{c.func.attr}(…)` grows a list built in this function (`[]`, `list(…)`, a literal, a concatenation) — never a list object received from model code" + why)
+    need(n >= 3, f"C01-11: expected >= 3 list-growing sites in core/, found {n}")
+    ctx.floor("C01-11", 3)
+
+
 def run(ctx: Ctx) -> None:
     ctx.guarded(rule_ordering_tables)
     ctx.guarded(rule_heap_pairing)
@@ -879,6 +917,7 @@ def run(ctx: Ctx) -> None:
     ctx.guarded(rule_sort_index)
     ctx.guarded(rule_context_exit_and_clock)
     ctx.guarded(rule_inheritance_horizon_floor)
+    ctx.guarded(rule_engine_grows_only_its_own_lists)
 
 
 # ------------------------------------------------------------------------------------------------
@@ -887,6 +926,7 @@ def run(ctx: Ctx) -> None:
 _LE_INSTANT = ("    def __le__(self, other: Instant) -> bool:\n        if not isinstance(other, Instant):\n            return NotImplemented\n"
                "        return self.nanoseconds <= other.nanoseconds")
 MUTANTS = [
+    ("continuation-appended-to-models-list", EV, "            result = list(side_effects)\n", "            result = side_effects if isinstance(side_effects, list) else list(side_effects)\n", "C01-11"),
     ("continuation-drops-daemon", EV, "        continuation = ProcessContinuation(\n            time=self.time,\n            event_type=self.event_type,\n            daemon=self.daemon,", "        continuation = ProcessContinuation(\n            time=self.time,\n            event_type=self.event_type,", "C01-10"),
     ("duration-from-epoch", SIM, "            self._end_time = self._start_time + duration", "            self._end_time = Instant.Epoch + duration", "C01-10"),
     ("index-floor-strict", HEAP, "        heapq.heappush(self._heap, event)\n        if event._sort_index >= self._index_floor:", "        heapq.heappush(self._heap, event)\n        if event._sort_index > self._index_floor:", "C01-10"),
